@@ -62,6 +62,45 @@ def plan(tier, seed):
 # ---------------------------------------------------------------------------
 # in-place mutations of mutable attributes (extra operations for the taint test)
 # ---------------------------------------------------------------------------
+def _walk(c, path, out, depth=0):
+    """every mutable container reachable from c (any depth) -> out[id] = path"""
+    if depth > 6:
+        return
+    if isinstance(c, dict):
+        out[id(c)] = path
+        for k, v in c.items():
+            _walk(v, f"{path}[{k!r}]", out, depth + 1)
+    elif isinstance(c, (list, set)):
+        out[id(c)] = path
+        for i, v in enumerate(c):
+            _walk(v, f"{path}[{i}]", out, depth + 1)
+
+
+def _deep_lists(c, depth=0):
+    """innermost mutable lists / dicts below the first level of a notes/annotation dict"""
+    out = []
+    if depth > 6:
+        return out
+    vals = c.values() if isinstance(c, dict) else (c if isinstance(c, list) else [])
+    for v in vals:
+        if isinstance(v, (list, dict)):
+            if depth >= 1:
+                out.append(v)
+            out += _deep_lists(v, depth + 1)
+    return out
+
+
+def decorate_deep(rng, model):
+    """Values nested two and three levels deep: the documented qualifier form of an
+    annotation {provider: [[qualifier, entity], ...]} and structured notes."""
+    pool = [model] + list(model.reactions)[:5] + list(model.metabolites)[:5] + list(model.genes)[:3] + list(model.groups)[:2]
+    for x in pool:
+        if rng.random() < 0.5:
+            x.annotation["deep.db"] = [["is", "X1"], ["hasPart", "X2"]]
+        if rng.random() < 0.4:
+            x.notes["deep"] = {"a": [1, {"b": 2}], "c": ["x", ["y"]]}
+
+
 def _containers(x):
     return [c for c in (getattr(x, "notes", None), getattr(x, "annotation", None)) if isinstance(c, dict)]
 
@@ -70,8 +109,19 @@ def inplace_mutation(H):
     rng, m = H.rng, H.model
     pool = [m] + list(m.reactions)[:6] + list(m.metabolites)[:6] + list(m.genes)[:4] + list(m.groups)[:2]
     x = rng.choice(pool)
-    kind = rng.choice(["notes-set", "annotation-set", "annotation-list-append", "compartments", "group-members", "name", "annotation-del"])
-    if kind == "notes-set":
+    kind = rng.choice(["notes-set", "annotation-set", "annotation-list-append", "compartments", "group-members", "name", "annotation-del", "deep-edit", "deep-edit"])
+    if kind == "deep-edit":
+        deep = []
+        for c in _containers(x):
+            deep += _deep_lists(c)
+        if not deep:
+            raise ops.Skip()
+        v = rng.choice(deep)
+        if isinstance(v, list):
+            v.append("TAINT")
+        else:
+            v["TAINT"] = 1
+    elif kind == "notes-set":
         x.notes["tainted"] = "yes"
     elif kind == "annotation-set":
         x.annotation["tainted.db"] = "T1"
@@ -117,19 +167,15 @@ def identity_problems(a, b):
                 s[id(x)] = f"{nm} {x.id}"
                 for c, cn in ((getattr(x, "notes", None), "notes"), (getattr(x, "annotation", None), "annotation")):
                     if isinstance(c, dict):
-                        s[id(c)] = f"{nm} {x.id}.{cn}"
-                        for k, v in c.items():
-                            if isinstance(v, (list, dict, set)):
-                                s[id(v)] = f"{nm} {x.id}.{cn}[{k!r}]"
+                        _walk(c, f"{nm} {x.id}.{cn}", s)
                 if nm == "reaction":
                     s[id(x.gpr)] = f"reaction {x.id}.gpr"
+                    if getattr(x.gpr, "body", None) is not None:
+                        s[id(x.gpr.body)] = f"reaction {x.id}.gpr.body"
                 if nm == "group":
                     s[id(x.members)] = f"group {x.id}.members"
         for c, cn in ((model.notes, "notes"), (model.annotation, "annotation")):
-            s[id(c)] = f"model.{cn}"
-            for k, v in c.items():
-                if isinstance(v, (list, dict, set)):
-                    s[id(v)] = f"model.{cn}[{k!r}]"
+            _walk(c, f"model.{cn}", s)
         comp = getattr(model, "_compartments", None)
         if isinstance(comp, dict):
             s[id(comp)] = "model compartments dictionary"
@@ -169,6 +215,21 @@ def run_case(base, case, acc):
     with warnings.catch_warnings():
         warnings.simplefilter("ignore")
         model, rec = gen.io_model(rng, id_styles=["plain"], with_groups=True, finite=rng.random() < 0.6)
+    decorate_deep(rng, model)
+    if rng.random() < 0.35 and len(model.genes) and len(model.reactions):
+        # identifiers are unique per kind only: a gene named like a reaction (and like a
+        # metabolite), the gene - not the reaction - being member of a group
+        import cobra
+        from cobra.manipulation import rename_genes
+
+        g = rng.choice(list(model.genes))
+        target = rng.choice(list(model.reactions)).id if rng.random() < 0.7 or not len(model.metabolites) else rng.choice(list(model.metabolites)).id
+        try:
+            rename_genes(model, {g.id: target})
+            model.add_groups([cobra.core.Group("clash_group", name="same id, other kind", members=[model.genes.get_by_id(target)])])
+            acc.count("models_with_id_shared_between_kinds")
+        except Exception:
+            pass
     H0 = ops.Hist(model, rng)
     # user constraints / variables
     for _ in range(rng.randint(0, 2)):
@@ -176,6 +237,11 @@ def run_case(base, case, acc):
             ops.OPS["model.add_cons_vars"]["fn"](H0)
         except Exception:
             pass
+    if rng.random() < 0.4 and len(model.genes):
+        # state that lives on the objects, not in their definition: knocked-out genes
+        for g in rng.sample(list(model.genes), min(len(model.genes), rng.randint(1, 2))):
+            g.knock_out()
+        acc.count("copies_of_models_with_knocked_out_genes")
     open_ctx = rng.choice([0, 0, 1, 2])
     for _ in range(open_ctx):
         model.__enter__()
@@ -285,9 +351,15 @@ def object_level(acc, rng, model, ident):
     if not len(model.reactions) or not len(model.metabolites):
         return
     snap = observe.snapshot(model)
-    for _ in range(3):
+    no_rule = [x for x in model.reactions if not x.gene_reaction_rule]
+    with_rule = [x for x in model.reactions if x.gene_reaction_rule]
+    for rep in range(3):
         r = rng.choice(list(model.reactions))
         r2 = rng.choice(list(model.reactions))
+        if rep == 1 and no_rule and with_rule:
+            r, r2 = rng.choice(no_rule), rng.choice(with_rule)  # the sum takes the right operand's rule
+        elif rep == 2 and no_rule and with_rule:
+            r, r2 = rng.choice(with_rule), rng.choice(no_rule)
         met = rng.choice(list(model.metabolites))
         # (the property names Reaction.copy, Metabolite.copy and + - *; copy.copy /
         # deepcopy / pickle of a single reaction are not claimed)
@@ -329,7 +401,25 @@ def object_level(acc, rng, model, ident):
                 if shared:
                     acc.violation(f"C12/{what}/result-shares-objects", f"the result of {what} shares {shared[:3]} with the model", dict(ident, reaction=r.id, shared=shared[:5]))
                     continue
+                own = {id(x.gpr): x.id for x in model.reactions}
+                own.update({id(x.gpr.body): x.id for x in model.reactions if getattr(x.gpr, "body", None) is not None})
+                if id(res.gpr) in own or (getattr(res.gpr, "body", None) is not None and id(res.gpr.body) in own):
+                    acc.violation(f"C12/{what}/result-shares-objects/gene-rule", f"the result of {what} shares its rule object with reaction {own.get(id(res.gpr)) or own.get(id(res.gpr.body))} of the model", dict(ident, reaction=r.id, other=r2.id))
+                    continue
                 # taint: editing the result must not reach the model
+                try:
+                    if res.genes:
+                        # an in-place rule edit on the result's side (rename_genes rewrites
+                        # the rule objects of the model the result has been put into)
+                        import cobra
+                        from cobra.manipulation import rename_genes
+
+                        tmp = cobra.Model("tmp")
+                        tmp.add_reactions([res])
+                        rename_genes(tmp, {g.id: g.id + "_r" for g in list(tmp.genes)})
+                        acc.count("rule_edits_on_results")
+                except Exception:
+                    pass
                 try:
                     res.notes["t"] = 1
                     res.annotation["t"] = 1
